@@ -63,12 +63,30 @@ func EnumPaths(ns []*Node, max int) ([]Path, bool) {
 				var out []Path
 				hasDefault := false
 				var prior []string
+				tagless := strings.TrimSpace(n.Head) == "switch"
 				for _, cs := range n.Kids {
 					g := n.Head + " " + cs.Head
 					if cs.Head == "default" {
 						hasDefault = true
 					}
-					p := Path{Guards: append(append([]string{}, cur.Guards...), g), Steps: append([]*Node{}, cur.Steps...)}
+					p := Path{Guards: append([]string{}, cur.Guards...), Steps: append([]*Node{}, cur.Steps...)}
+					if tagless {
+						// a tagless switch is an if/else-if chain: earlier cases were false
+						for _, pr := range prior {
+							p.Guards = append(p.Guards, Negate(pr))
+						}
+						if cs.Head != "default" {
+							e := strings.TrimPrefix(cs.Head, "case ")
+							if len(splitTop(e, ", ")) > 1 {
+								p.Guards = append(p.Guards, g)
+							} else {
+								p.Guards = append(p.Guards, e)
+								prior = append(prior, e)
+							}
+						}
+					} else {
+						p.Guards = append(p.Guards, g)
+					}
 					for _, q := range rec(cs.Kids, p) {
 						if q.Exit != "" {
 							out = append(out, q)
@@ -76,10 +94,16 @@ func EnumPaths(ns []*Node, max int) ([]Path, bool) {
 							out = append(out, rec(rest, q)...)
 						}
 					}
-					prior = append(prior, cs.Head)
 				}
 				if !hasDefault {
-					p := Path{Guards: append(append([]string{}, cur.Guards...), n.Head+" no-case"), Steps: append([]*Node{}, cur.Steps...)}
+					p := Path{Guards: append([]string{}, cur.Guards...), Steps: append([]*Node{}, cur.Steps...)}
+					if tagless {
+						for _, pr := range prior {
+							p.Guards = append(p.Guards, Negate(pr))
+						}
+					} else {
+						p.Guards = append(p.Guards, n.Head+" no-case")
+					}
 					out = append(out, rec(rest, p)...)
 				}
 				if len(out) > max {
